@@ -29,6 +29,11 @@ RULE = ("(1) Old-style CNF formulas: literal = tag x {positive, '-', '~'} x {bar
         "non-decreasing order and in reversed order) under 9 styles. Each formula is presented as list, tuple (small), "
         "space-joined string and string with doubled/leading/trailing blanks, parsed under V1 and AUTO_DETECT, and evaluated on all 16 subsets of {a,b,c,candor}; "
         "oracle = AND over groups of OR over (tag in set) xor negated. "
+        "(1b) Empty alternatives: OR-groups with an empty alternative in first / middle / last position (trailing, "
+        "leading, doubled comma: 'l,' ',l' 'l,,' ',l,' ',,l' 'l,,m' ',l,m' 'l,m,') with every decoration of the other "
+        "alternatives, alone and AND-ed with a second group in either order (whose one-string form is the "
+        "blank-after-comma text 'l, m'), same presentations and protocols; oracle: an empty alternative contributes "
+        "nothing to its OR (the group means its non-empty alternatives). "
         "(2) Every rendering (8 per AST) of all v2 ASTs with <= 3 operand occurrences (C07's quick set; thorough: full "
         "operand alphabet) under AUTO_DETECT on all 16 subsets of {a,b,a.b,ab} against C07's independent evaluator. "
         "(3) Each of those renderings with one operand occurrence prefixed by '-' or '~': TagExpressionError required "
@@ -50,7 +55,11 @@ ASSUMPTIONS = [
     "limit suffixes are consistent per tag (a:3 b:1 c:2 candor:10); inconsistent limits raise by documentation and "
     "are excluded; that limits are *enforced* during a run is not claimed (the statement only speaks of meaning)",
     "the 3x3 tier enumerates groups and alternatives in canonical and in reversed order, not in every order",
-    "whitespace inside one argument ('a, b') is not covered",
+    "whitespace inside one ARGUMENT of the list form ('a, b' as one list element) is not covered; in the one-string "
+    "form whitespace always separates arguments, so 'a, b' is the two arguments 'a,' and 'b'",
+    "an empty alternative (nothing between/before/after commas) names no tag and never matches - behave accepts such "
+    "texts without error on the unchanged tree; groups consisting ONLY of empty alternatives (',') and empty arguments "
+    "('') are not enumerated (their meaning - false group or ignored group - is not stated)",
 ]
 
 # ---------------------------------------------------------------- universe / reference for CNF
@@ -59,6 +68,8 @@ SUB4 = [tuple(t for i, t in enumerate(U4) if m >> i & 1) for m in range(16)]
 SUB4_LISTS = [list(s) for s in SUB4]
 FULL16 = 0xFFFF
 TAGMASK = {t: sum(1 << m for m, s in enumerate(SUB4) if t in s) for t in U4}
+TAGMASK[""] = 0                 # an EMPTY alternative ("a," / ",a" / "a,,b") names no tag: it contributes nothing to its OR
+EMPTY = ("", "", 0, 0)          # literal tuple of an empty alternative (renders as the empty string)
 LIMIT = {"a": 3, "b": 1, "c": 2, "candor": 10}
 
 
@@ -134,6 +145,38 @@ def canonical_structures_beyond_2x2(tags):
                 yield rev
 
 
+def empty_alternative_formulas(quick):
+    """OR-groups with empty alternatives at first / middle / last position (trailing, leading, doubled comma), every
+    decoration of the other alternatives, alone and AND-ed with a second group (the string form of the latter is the
+    blank-after-comma text "a, b").  Groups made only of empty alternatives are not enumerated."""
+    forms = literal_forms(U4)
+    E = EMPTY
+    for l in forms:
+        for g in ((l, E), (E, l), (l, E, E), (E, l, E), (E, E, l)):
+            yield (g,)
+    for l in forms:
+        for l2 in forms:
+            for g in ((l, E), (E, l)):
+                yield (g, (l2,))
+                yield ((l2,), g)
+    small = literal_forms(("a", "b", "candor")) if quick else forms
+    for l in small:
+        for l2 in small:
+            for g in ((l, E, l2), (E, l, l2), (l, l2, E)):
+                yield (g,)
+    if not quick:
+        f3 = literal_forms(("a", "b", "c"))
+        for l in f3:
+            for l2 in f3:
+                for l3 in f3:
+                    for g in ((l, E, l2), (E, l, l2), (l, l2, E)):
+                        yield (g, (l3,))
+                        yield ((l3,), g)
+                for g in ((l, E), (E, l)):
+                    for g2 in ((l2, E), (E, l2)):
+                        yield (g, g2)
+
+
 STYLES27 = [(n, a, l) for n in (0, 1, 2) for a in (0, 1, 2) for l in (0, 1, 2)]
 STYLES9 = [(n, a, l) for n in (0, 1, 2) for (a, l) in ((0, 0), (1, 1), (2, 2))]
 
@@ -194,8 +237,14 @@ def first_diff(got, want, rows):
     return rows[i], bool(got >> i & 1), bool(want >> i & 1)
 
 
+def has_empty(formula):
+    return any(l[0] == "" for g in formula for l in g)
+
+
 def cnf_class(formula):
     lits = [l for g in formula for l in g]
+    if has_empty(formula):
+        return {"shape": "group-with-empty-alternative", "negation": "any", "limit": "any"}
     negs = sorted(set(l[1] for l in lits if l[1]))
     shape = "lone-literal" if len(lits) == 1 else ("one-group" if len(formula) == 1 else
                                                    ("one-alternative-groups" if all(len(g) == 1 for g in formula)
@@ -226,6 +275,8 @@ def check_cnf(formula):
     if nlits <= 2:
         routes += [("V1", P.V1, True), ("AUTO_DETECT", P.AUTO_DETECT, True)]
     v, obs, n = [], [], 0
+    with_empty = has_empty(formula)
+    v1_outcome = {}
     for pname, arg in pres:
         for rname, proto, via_use in routes:
             n += 1
@@ -238,7 +289,11 @@ def check_cnf(formula):
                     e = make_tag_expression(given, proto)
                 got = real_mask(e, SUB4_LISTS)
             except Exception as ex:
+                if rname == "V1":
+                    v1_outcome[pname] = type(ex).__name__
                 d = {"subcheck": "cnf", "clause": "raises", "protocol": rname, "exc": type(ex).__name__}
+                if with_empty and rname != "V1" and v1_outcome.get(pname) == type(ex).__name__:
+                    d["protocol"] = "V1"        # auto-detection only dispatched to the old-style parser: same defect
                 d.update(cnf_class(formula))
                 v.append((d, "old-style expression %r under %s raised %r" % (arg, rname, ex)))
                 obs.append((pname, rname, via_use, "EXC", type(ex).__name__))
@@ -247,6 +302,8 @@ def check_cnf(formula):
                 if via_use:
                     reset_protocol()
             obs.append((pname, rname, via_use, got))
+            if rname == "V1":
+                v1_outcome[pname] = got
             cls = cnf_class(formula)
             if (got != want and rname == "AUTO_DETECT" and cls["shape"] == "lone-literal"
                     and cls["negation"] == "none" and cls["limit"] == "yes" and got == 0):
@@ -257,6 +314,8 @@ def check_cnf(formula):
             if got != want:
                 tags, g, w = first_diff(got, want, SUB4)
                 d = {"subcheck": "cnf", "clause": "truth-table", "protocol": rname}
+                if with_empty and rname != "V1" and v1_outcome.get(pname) == got:
+                    d["protocol"] = "V1"        # auto-detection only dispatched to the old-style parser: same defect
                 d.update(cnf_class(formula))
                 v.append((d, "old-style expression %r (%s) under %s%s: tags %r -> behave says %s, "
                              "AND-of-ORs says %s (behave built %s %r)"
@@ -264,8 +323,9 @@ def check_cnf(formula):
                              type(e).__module__, str(e))))
     nt = None
     if want not in (0, FULL16) and not (nlits == 1 and deco_class(formula) == ("", "none", "none")):
-        nt = ("cnf", tuple(tuple((l[0], bool(l[1])) for l in g) for g in formula), deco_class(formula))
-    return {"v": v, "nt": nt, "out": ("cnf", want), "dg": obs, "n": n}
+        nt = ("cnf-empty" if with_empty else "cnf", tuple(tuple((l[0], bool(l[1])) for l in g) for g in formula),
+              deco_class(formula))
+    return {"v": v, "nt": nt, "out": ("cnf-empty" if with_empty else "cnf", want), "dg": obs, "n": n}
 
 
 # ---- v2 renderings under AUTO_DETECT, and the same with one prefixed operand ----------------
@@ -626,6 +686,7 @@ def run(ctx):
     if not quick:
         ctx.sweep(check_cnf, styled(canonical_structures_beyond_2x2(("a", "b", "c")), STYLES9), chunk=512,
                   name="cnf <=3x3 beyond 2x2 x styles")
+    ctx.sweep(check_cnf, empty_alternative_formulas(quick), chunk=256, name="cnf with empty alternatives")
     # (4) command line
     cli = [(decorate(s, STYLES27[(i * 7 + 5) % 27]), p)
            for i, s in enumerate(ordered_structures(("a", "b", "c"), 2, 2)) for p in ("V1", "AUTO_DETECT")]
@@ -660,3 +721,5 @@ def run(ctx):
     ctx.guard(sum(1 for k in ctx.nt if k[0] == "cnf") > 2000, "at least 2000 distinct non-trivial CNF (structure, decoration)")
     ctx.guard(sum(1 for k in ctx.nt if k[0] == "v2") > 1000, "at least 1000 distinct non-trivial v2 ASTs")
     ctx.guard(sum(1 for k in outs if k[0] == "cnf") > 50, "at least 50 distinct CNF truth tables")
+    ctx.guard(sum(1 for k in ctx.nt if k[0] == "cnf-empty") > 300, "at least 300 distinct non-trivial CNF with an empty alternative")
+    ctx.guard(sum(1 for k in outs if k[0] == "cnf-empty") > 10, "at least 10 distinct truth tables among CNF with empty alternatives")
